@@ -33,6 +33,11 @@ is keyed sequence:result-depends-on-previous-call:<stale component>, and the fir
 Donor-density profiles mix exact zeros with positive values (mode "mixed"; judged point by point, zero => no-donor balance)
 and n_e/T_e profiles contain coinciding entries; the scalar cross-entry comparison is made on the first point, the first
 positive-donor point and the first zero-donor point (key profile:donor-zero-at-some-points:cx-dropped-elsewhere:*).
+Species {charge: density} dicts are passed in random insertion orders (ascending, descending, shuffled, an entry re-inserted)
+and as dict / OrderedDict / dict subclass; besides the charge-conservation oracle the same call with ascending dicts must
+return the identical result (neutrality:depends-on-dict-insertion-order:*).  35 % of multi-point profiles repeat bit-identical
+(n_e, T_e) pairs with different donor / element density; a later point that received the exact solution of the earlier one is
+keyed profile:repeated-(n_e,T_e)-point-returns-earlier-points-result:*.
 Mechanism keys: a mismatch on a point solved through scipy's bounded TRF iteration (OptimizeResult.status in {-1,0,1,2},
 seen through a recording wrapper of the module's lsq_linear reference) is keyed solver:*, a result equal to the exact
 no-donor solution while a donor was supplied is keyed tcx-donor-ignored:*, anything else by sub-clause and entry point.
@@ -72,7 +77,8 @@ QUICK = dict(cases=600, workers=2, timecap=40)
 THOROUGH = dict(cases=26000, workers=16, timecap=600)
 REQUIRED = {"fractions": 5000, "balance": 5000, "sum_range": 500, "densities": 1500, "neutrality": 150, "cross_entry": 1000,
             "interp_nodes": 2000, "eqmap_points": 1000, "contract_evals": 1000, "donor_sensitive": 80,
-            "sequence_steps": 100, "sequence_repeat": 20, "mixed_donor_points": 40}
+            "sequence_steps": 100, "sequence_repeat": 20, "mixed_donor_points": 40, "dict_order_pairs": 15,
+            "repeated_point_pairs": 30}
 
 EPS = 2.220446049250313e-16
 CF = 200.0
@@ -133,6 +139,20 @@ def _logu(rng, lo, hi, size=None):
     return 10.0 ** rng.uniform(lo, hi, size=size)
 
 
+def _gen_order(rng, nz):
+    """insertion order (list of charges) and container type of a {charge: density} dict."""
+    kind = ["asc", "desc", "shuffled", "reinserted"][int(rng.choice(4, p=[0.3, 0.25, 0.25, 0.2]))]
+    keys = list(range(nz))
+    if kind == "desc":
+        keys = keys[::-1]
+    elif kind == "shuffled":
+        keys = [int(k) for k in rng.permutation(nz)]
+    elif kind == "reinserted":               # an entry deleted and added again moves to the end
+        k = int(rng.integers(nz))
+        keys = [q for q in keys if q != k] + [k]
+    return {"keys": keys, "container": ["dict", "OrderedDict", "subclass"][int(rng.integers(3))]}
+
+
 def gen_case(rng, tier, entry=None, rep=None):
     if entry is None and rng.random() < SEQ_WEIGHT:
         return _gen_sequence(rng, tier)
@@ -173,11 +193,11 @@ def gen_case(rng, tier, entry=None, rep=None):
     y = np.cumsum(np.concatenate([[rng.uniform(-1.0, 1.0)], _logu(rng, -2, 0, shape[1] - 1)])).tolist() if len(shape) == 2 else None
     ne = np.clip(ne_ref * _logu(rng, -1.5, 1.5, n), 1e16, 1e22)
     te = _logu(rng, -0.5, 4.3, n)
-    if n >= 2 and rng.random() < 0.25:      # profiles in which only some entries coincide
+    if n >= 2 and rng.random() < 0.35:      # profiles in which only some (n_e, T_e) entries coincide
         for _ in range(int(rng.integers(1, n))):
             i, j = (int(v) for v in rng.choice(n, 2, replace=False))
             ne[j] = ne[i]
-            if rng.random() < 0.5:
+            if rng.random() < 0.7:
                 te[j] = te[i]
     # donor
     u = rng.random()
@@ -214,7 +234,8 @@ def gen_case(rng, tier, entry=None, rep=None):
             charge = (np.arange(nz)[:, None] * raw).sum(axis=0)
             dens = raw * (qtot * split[:, s] * ne / charge)[None, :]
             species.append({"nz": nz, "kind": ["dict_array", "ndarray", "dict_func"][int(rng.integers(3))],
-                            "dens": dens.tolist(), "flav": ["py", "lin", "cub"][int(rng.integers(3))]})
+                            "dens": dens.tolist(), "flav": ["py", "lin", "cub"][int(rng.integers(3))],
+                            "order": _gen_order(rng, nz)})
     # representation per parameter
     kinds = {}
     for p in ("ne", "te", "nd", "nel"):
@@ -261,7 +282,11 @@ def _gen_sequence(rng, tier):
     ne_ref = float(_logu(rng, 17.5, 20.5))
 
     def plasma():
-        return np.clip(ne_ref * _logu(rng, -1.0, 1.0, n), 1e16, 1e22), _logu(rng, -0.5, 4.3, n)
+        a, b = np.clip(ne_ref * _logu(rng, -1.0, 1.0, n), 1e16, 1e22), _logu(rng, -0.5, 4.3, n)
+        if rng.random() < 0.35:              # two points with bit-identical (n_e, T_e)
+            i, j = (int(v) for v in rng.choice(n, 2, replace=False))
+            a[j], b[j] = a[i], b[i]
+        return a, b
 
     def donor_ratio():
         r = _logu(rng, -3, 1, n)
@@ -321,7 +346,7 @@ def _gen_sequence(rng, tier):
             st["entry"] = [e for e in SEQ_ENTRIES if e != st["entry"]][int(rng.integers(len(SEQ_ENTRIES) - 1))]
         steps.append(snap(change, rng.random() < 0.25))
     steps.append(dict(steps[0], change="repeat-first"))
-    return dict(entry="call_sequence", rep="array1d", x=x, sp_frac=sp_frac.tolist(), steps=steps)
+    return dict(entry="call_sequence", rep="array1d", x=x, sp_frac=sp_frac.tolist(), sp_order=_gen_order(rng, nz), steps=steps)
 
 
 def fixed_cases(tier):
@@ -441,23 +466,39 @@ def _build_param(kind, flav, vals_flat, shape, xs, ys, single):
     return f, _eval_func(f, xs, ys, single)
 
 
-def _build_species(sp, shape, xs, ys, single):
+class _SpeciesDict(dict):
+    """a plain dict subclass (what e.g. a user-side container of charge-state densities may be)."""
+
+
+def _ordered(d, order, ascending=False):
+    """the same {charge: value} mapping with the requested insertion order / container type."""
+    import collections
+    keys = sorted(d) if (ascending or not order) else list(order["keys"])
+    cont = {"dict": dict, "OrderedDict": collections.OrderedDict, "subclass": _SpeciesDict}[(order or {}).get("container", "dict")]
+    out = cont()
+    for k in keys:
+        out[k] = d[k]
+    return out
+
+
+def _build_species(sp, shape, xs, ys, single, ascending=False):
     dens = np.asarray(sp["dens"], dtype=float)          # (nz, n)
     nz = dens.shape[0]
+    order = sp.get("order")
     if sp["kind"] == "ndarray":
         if single is not None:
             return dens[:, [single]].copy(), dens[:, [single]].copy()
         return dens.reshape([nz] + list(shape)).copy(), dens.copy()
     if sp["kind"] == "dict_array":
         if single is not None:
-            return {z: dens[z, [single]].copy() for z in range(nz)}, dens[:, [single]].copy()
-        return {z: dens[z].reshape(shape).copy() for z in range(nz)}, dens.copy()
+            return _ordered({z: dens[z, [single]].copy() for z in range(nz)}, order, ascending), dens[:, [single]].copy()
+        return _ordered({z: dens[z].reshape(shape).copy() for z in range(nz)}, order, ascending), dens.copy()
     obj, seen = {}, []
     for z in range(nz):
         f = _make_func(sp["flav"], dens[z].reshape(shape), xs, ys)
         obj[z] = f
         seen.append(_eval_func(f, xs, ys, single))
-    return obj, np.array(seen)
+    return _ordered(obj, order, ascending), np.array(seen)
 
 
 # =====================================================================================================================
@@ -501,7 +542,7 @@ def _ratios(f, O, Z, slack):
     return rS, rJ, rF, tolF
 
 
-def _judge_point(ctx, case, fam, f, O, O_nd, status, slack, check_sum, where, nodonor_ref=None, mixed=False):
+def _judge_point(ctx, case, fam, f, O, O_nd, status, slack, check_sum, where, nodonor_ref=None, mixed=False, alts=()):
     """f: fraction vector returned for one point. O: oracle with the supplied donor, O_nd: oracle without donor (or None).
     nodonor_ref(): the module's own scalar fractional_abundance answer WITHOUT donor at this point (mechanism classifier)."""
     entry = case["entry"]
@@ -564,6 +605,16 @@ def _judge_point(ctx, case, fam, f, O, O_nd, status, slack, check_sum, where, no
                      "a thermal-CX donor with density > 0 was supplied but the result equals the solution WITHOUT donor",
                      entry=entry, max_diff_with_vs_without=float(np.abs(O_nd["f"] - O["f"]).max()), **detail)
             return False
+    if np.all(np.isfinite(f)):
+        # an EARLIER point of the same profile with bit-identical (n_e, T_e) but another donor density: its solution returned here?
+        for jj, Oj in alts:
+            rS3, rJ3, rF3, tolF3 = _ratios(f, Oj, Z, slack)
+            if tolF3 <= FWD_SKIP and rJ3 <= 1 and rF3 <= 1:
+                fn = "_fractional_abundance(coef_tcx=...)" if entry == "_fractional_abundance(coef_*)" else FAMILY_FN[fam]
+                ctx.viol("profile:repeated-(n_e,T_e)-point-returns-earlier-points-result:%s" % fn,
+                         "two points of one profile have identical (n_e, T_e) but different donor density; the later point "
+                         "received the exact solution of the earlier one", entry=entry, earlier_point=jj, **detail)
+                return False
     if trf:
         ctx.viol("solver:lsq_linear-bounded-trf-path(status=%d)-result-inaccurate" % status,
                  "the unconstrained least-squares solution was infeasible by rounding, lsq_linear switched to its bounded "
@@ -644,13 +695,16 @@ def run_case(case, ctx):
     nel = None
     if fam == "from":
         in_nel, nel = _build_param(case["kinds"]["nel"], case["flav"]["nel"], vals("nel"), shape, xs, ys, single)
-    in_species, species_seen = [], []
+    in_species, species_seen, in_species_asc = [], [], []
     if fam == "match":
         for sp in case["species"]:
             sp2 = dict(sp, dens=np.asarray(sp["dens"], dtype=float)[:, :n]) if iseq else sp
             o, seen = _build_species(sp2, shape, xs, ys, single)
             in_species.append(o)
             species_seen.append(seen)
+            in_species_asc.append(_build_species(sp2, shape, xs, ys, single, ascending=True)[0])
+            if isinstance(o, dict):
+                ctx.cls("species-dict:%s" % ("ascending" if list(o) == sorted(o) else "non-ascending"))
     anyfunc = any(not isinstance(o, (float, np.ndarray)) for o in (in_ne, in_te, dargs[1]) if o is not None)
     if fam == "from":
         anyfunc = anyfunc or not isinstance(in_nel, (float, np.ndarray))
@@ -792,6 +846,33 @@ def run_case(case, ctx):
         del C.STATE["lsq"][:max(0, len(C.STATE["lsq"]) - 64)]
         return _stack(r, Z)[:, 0], stat
 
+    # ---- {charge: density} dicts: the result must not depend on the insertion order / dict type ----------------------
+    order_dependent = False
+    if fam == "match" and not entry.startswith("_") and any(isinstance(o, dict) and list(o) != sorted(o) for o in in_species):
+        try:
+            if entry == "match_plasma_neutrality":
+                got2 = _stack(ib.match_plasma_neutrality(M.make_atomic_data(par), el, in_species_asc, in_ne, in_te,
+                                                         free_variable=fv_pass, **dkw), Z)
+            elif iseq:
+                res2 = getattr(ib, entry)(M.make_atomic_data(par), el, _equilibrium(), fv, in_species_asc, in_ne, in_te, *dargs)
+                got2 = np.array([[res2[z](r, 0.0, zz) for (_, r, zz) in samples] for z in range(Z + 1)])
+            else:
+                res2 = getattr(ib, entry)(M.make_atomic_data(par), el, fv, in_species_asc, in_ne, in_te, *dargs)
+                got2 = np.array([[res2[z](*p) for p in pts] for z in range(Z + 1)])
+        except (C.SolverNonTermination, C.ContractViolation):
+            got2 = None
+        del C.STATE["lsq"][:max(0, len(C.STATE["lsq"]) - 64)]
+        if got2 is not None:
+            ctx.mon("dict_order_pairs")
+            if got2.shape != got.shape or not np.allclose(got, got2, rtol=1e-12, atol=0.0, equal_nan=True):
+                order_dependent = True
+                ctx.viol("neutrality:depends-on-dict-insertion-order:%s" % entry,
+                         "the same {charge: density} species dicts passed in ascending-charge insertion order give a different "
+                         "result: densities are attributed to charges by position, not by key",
+                         insertion_orders=[list(o) for o in in_species if isinstance(o, dict)],
+                         containers=[type(o).__name__ for o in in_species if isinstance(o, dict)],
+                         max_rel_diff=float(np.max(np.abs(got - got2) / (np.abs(got2) + 1e-300))) if got2.shape == got.shape else None)
+
     col_slack = {}
     for j, i in enumerate(cols):
         g = got[:, j]
@@ -838,7 +919,7 @@ def run_case(case, ctx):
                 if trf:
                     ctx.viol("solver:lsq_linear-bounded-trf-path(status=%d)-result-inaccurate" % statuses[i],
                              "charge of the matched element does not restore neutrality on a TRF-path point", entry=entry, **where)
-                else:
+                elif not order_dependent:
                     ctx.viol("neutrality:%s" % entry, "sum_z z n_z + charge of the given species != n_e",
                              got_charge=charge, want_charge=rem, tol=tolN, **where)
                 continue
@@ -859,8 +940,11 @@ def run_case(case, ctx):
             return None if r2 is None else r2[0]
         if mixed_profile and nd[i] > 0:
             ctx.mon("mixed_donor_points")
+        alts = [(jj, O[jj]) for jj in range(i) if ne[jj] == ne[i] and te[jj] == te[i] and nd[jj] != nd[i]]
+        if alts:
+            ctx.mon("repeated_point_pairs")
         _judge_point(ctx, case, fam, f, O[i], O_nd[i], statuses[i], slack, check_sum, where, nodonor_ref=nd_ref,
-                     mixed=mixed_profile)
+                     mixed=mixed_profile, alts=alts)
 
     # ---- structure of function-valued results ------------------------------------------------------------------------
     if entry.startswith("interpolators"):
@@ -980,7 +1064,7 @@ def _run_sequence(case, ctx):
         d = stp["donor"]
         dargs = (getattr(_S["em"], d["el"]), nd.copy(), d["charge"]) if d else (None, None, 0)
         dens = sp_frac * ne[None, :]
-        species = [{z: dens[z].copy() for z in range(dens.shape[0])}]
+        species = [_ordered({z: dens[z].copy() for z in range(dens.shape[0])}, case.get("sp_order"))]
         try:
             if entry == "fractional_abundance":
                 got = _stack(ib.fractional_abundance(ad, el, ne.copy(), te.copy(), *dargs), Z)
@@ -1028,6 +1112,8 @@ def _run_sequence(case, ctx):
             for i in range(ne.size):
                 _judge_point(ctx, {"entry": entry, "Z": Z}, fam, F[i], O[i], O_nd[i], None, slack, fam != "match",
                              dict(step=k, point=i), mixed=mixed)       # counts monitors / margins
+                if any(ne[jj] == ne[i] and te[jj] == te[i] and nd[jj] != nd[i] for jj in range(i)):
+                    ctx.mon("repeated_point_pairs")
                 if mixed and nd[i] > 0:
                     ctx.mon("mixed_donor_points")
         elif all(f is not None for f in F):
@@ -1065,8 +1151,9 @@ def _run_sequence(case, ctx):
             else:
                 for i in range(ne.size):
                     if not okpts[i]:
+                        alts = [(jj, O[jj]) for jj in range(i) if ne[jj] == ne[i] and te[jj] == te[i] and nd[jj] != nd[i]]
                         _judge_point(ctx, {"entry": entry, "Z": Z}, fam, F[i], O[i], O_nd[i], None, slack, fam != "match",
-                                     dict(step=k, point=i, change=stp["change"]), mixed=mixed)
+                                     dict(step=k, point=i, change=stp["change"]), mixed=mixed, alts=alts)
         if k == 0:
             first_got = got
         elif stp["change"] == "repeat-first":
